@@ -3,11 +3,15 @@ import mkprops as m
 J = 'Proofs/Json.v'; P = 'Proofs/Pbn.v'
 IMP = ('From BE Require Import Model.Json Model.Schema Model.Pbn Gen.JsonFraming Gen.Schemas Gen.Regexes Proofs.Json Proofs.Pbn Proofs.Pins.\n'
        'From Coq Require Import ZArith.\nLocal Open Scope string_scope.\nLocal Open Scope nat_scope.\nLocal Open Scope list_scope.')
-m.write('C17', 'Board-settings files are read back as the boards that were written, in order.', IMP, '', [
+m.write('C17', 'Board-settings files are read back as the boards that were written, in order.', ('From BE Require Import Gen.JsonFns Proofs.JsonGen Proofs.JsonGenCor.\n' + IMP), '', [
  (J, 'setting_roundtrip', 'C17_json_setting_roundtrip', 'JSON: every board setting, double-dummy table included'),
  (J, 'settings_roundtrip', 'C17_json_settings_roundtrip', 'JSON: every list of settings, in order', {'parse_board_settings': 'Json.parse_board_settings'}),
  (J, 'framing_parses', 'C17_json_framing', 'the file written by open / write* / close is one JSON document, for every list (tag board_settings is covered by the word condition)'),
  (J, 'settings_schema_valid', 'C17_json_schema', None),
+ ('Proofs/JsonGen.v', 'g_setting_json_eq', 'C17_generated_setting_writer_is_hand_model', 'JsonBoardSettingWriter.write REGENERATED from writer.py on every run equals the hand model, for every setting'),
+ ('Proofs/JsonGen.v', 'g_setting_of_json_eq', 'C17_generated_setting_reader_is_hand_model', 'convert_board_setting regenerated from parser.py equals the hand model on EVERY JSON value'),
+ ('Proofs/JsonGen.v', 'g_parse_board_settings_eq', 'C17_generated_settings_reader_is_hand_model', None, {'parse_board_settings': 'Json.parse_board_settings'}),
+ ('Proofs/JsonGenCor.v', 'g_settings_roundtrip', 'C17_json_settings_roundtrip_generated', 'the property, for the regenerated writer and reader'),
  (J, 'ex_settings_written_and_read', 'C17_json_example', 'non-vacuity', {'parse_board_settings': 'Json.parse_board_settings'}),
  (P, 'parse_all_layout', 'C17_pbn_layouts', 'PBN: every admissible layout - header lines, LF or CR LF, runs of blank lines before / between / after games, tags in any order, extra and repeated tags, table rows - is read as its games, first occurrence of each tag winning'),
  (P, 'settings_of_layout', 'C17_pbn_settings_of_layout', 'hence the boards: deal written from any first seat, any accepted vulnerability spelling, dealer, id - in order'),
